@@ -49,7 +49,7 @@ def run(rep):
         if r.status == 'refuted' and replay: d.update(replay(r))
         rep.add(name, r.status, **d)
     for ob in ex.obls: add(f'C17.new.{ob.kind}#{ob.name.rsplit(".", 1)[-1]}', list(ob.pc), ob.goal, ob.where)
-    nret = 0; RT = {}
+    nret = 0; RT = {}; DOM = {}
     for pi, (kind, s, v) in enumerate(outs):
         evs = list(s.events); pc = list(s.pc); tag = f'path{pi}'
         stores = [e for e in evs if e[0] == 'ghost_store']; gets = [e for e in evs if e[0] == 'ghost_get']
@@ -81,6 +81,8 @@ def run(rep):
                     last = s.hget(('fieldlast', '_conf_kwargs'))
                     if last is not None and isinstance(last[1], symx.VDictRef):
                         kwfinal = dict(s.hget(('dict', last[1].rid), ()))
+                        for o, dom in domains(uni, mod).items():
+                            if o in kwfinal: DOM.setdefault(o, []).append(z3.And(*pc, z3.Not(dom(ex.obj(kwfinal[o])))))
                         for o in OPTS:
                             if o == 'is_color' or o not in kwfinal: continue
                             RT.setdefault(o, []).append(z3.And(*pc, z3.Not(M.eqc(ex.obj(kwfinal[o])) == M.eqc(A[o]))))
@@ -97,10 +99,31 @@ def run(rep):
     for o, disj in RT.items():
         # one obligation per option over ALL miss paths: no path on which conf.kwargs[o] differs (modulo ==) from the passed value
         add(f'C17.new.post.roundtrip.{o}.allpaths', [], z3.Not(z3.Or(*disj)), f'conf.kwargs[{o!r}] equals the passed {o} on each of {len(disj)} paths', replay=(lambda r, o=o: replay_roundtrip(o)))
+    for o, disj in DOM.items():
+        add(f'C17.new.post.domain.{o}.allpaths', [], z3.Not(z3.Or(*disj)), f'a stored configuration has {o} inside its documented domain ({len(disj)} paths)')
     rep.extra['paths_new'] = len(outs)
     # ---- __eq__, __hash__, kwargs, the option properties (function mode, tiny bodies)
     small(rep, uni, axioms)
     return ex
+
+def domains(uni, mod):
+    """documented option domains (from the parameter annotations of BeartypeConf.__new__ and the property text), one line each"""
+    from pyvc import model as M
+    from beartype import BeartypeDecorPlace, BeartypeStrategy, BeartypeViolationVerbosity, FrozenDict
+    C = uni.const; inst = M.inst
+    isb = lambda t: inst(t, C(bool))
+    exc = lambda t: z3.And(inst(t, C(type)), M.subc(t, C(Exception)))
+    return {
+        'claw_decor_place_func': lambda t: inst(t, C(BeartypeDecorPlace)), 'claw_decor_place_type': lambda t: inst(t, C(BeartypeDecorPlace)),
+        'claw_is_pep526': isb, 'is_debug': isb, 'is_pep484_tower': isb, 'is_pep557_fields': isb, 'is_random': isb,
+        'hint_overrides': lambda t: z3.BoolVal(True),   # replaced by the tower contract; FrozenDict-ness is checked before (die_if)
+        'is_color': lambda t: z3.Or(inst(t, C(type(None))), isb(t)),
+        'strategy': lambda t: inst(t, C(BeartypeStrategy)), 'violation_verbosity': lambda t: inst(t, C(BeartypeViolationVerbosity)),
+        'violation_door_type': exc, 'violation_param_type': exc, 'violation_return_type': exc,
+        'violation_type': lambda t: z3.Or(t == C(None), exc(t)),
+        'warning_cls_on_decorator_exception': lambda t: z3.Or(t == C(None), z3.And(inst(t, C(type)), M.subc(t, C(Warning)))),
+        'claw_skip_package_names': lambda t: inst(t, C(__import__('collections.abc').abc.Collection)),
+    }
 
 def small(rep, uni, axioms):
     from pyvc import funcmode, model as M, discharge
